@@ -1,11 +1,91 @@
 import ShelxModel.JsonUtil
 import ShelxModel.C14
+import ShelxModel.Extracted.C14Consts
 open Lean Shelx.J
 
 namespace Shelx.Drv.C14
+open Shelx.C14
+
+/-- `SDM.vector_length` in doubles, operation by operation -/
+def vlenF (asq bsq csq aga bbe cal : Float) (x y z : Float) : Float :=
+  let A := 2.0 * (x * y * aga + x * z * bbe + y * z * cal)
+  Float.sqrt (x * x * asq + y * y * bsq + z * z * csq + A)
+
+def kernelF (j : Json) : Except String (Kernel Float) := do
+  let asq ← floatField j "asq"
+  let bsq ← floatField j "bsq"
+  let csq ← floatField j "csq"
+  let aga ← floatField j "aga"
+  let bbe ← floatField j "bbe"
+  let cal ← floatField j "cal"
+  return { ofInt := Float.ofInt, floor := fun x => x.floor.toInt64.toInt, vlen := vlenF asq bsq csq aga bbe cal,
+           half := 0.5, dupLim := Consts.dupLimF, window := Consts.windowF, eps := Consts.epsF, hh := Consts.hhF,
+           molLow := Consts.molLow, molLimit := Consts.molLimit }
+
+def v3F (j : Json) : Except String (V3 Float) := do
+  match ← floats j with
+  | [x, y, z] => return ⟨x, y, z⟩
+  | _ => err "expected 3 numbers"
+
+def v3I (j : Json) : Except String (V3 Int) := do
+  match ← ints j with
+  | [x, y, z] => return ⟨x, y, z⟩
+  | _ => err "expected 3 ints"
+
+def opOf (j : Json) : Except String (Op Float) := do
+  match ← arrField j "R" with
+  | [a, b, c] => return { r1 := ← v3I a, r2 := ← v3I b, r3 := ← v3I c, t := ← field j "t" >>= v3F }
+  | _ => err "expected 3 rows"
+
+def atomOf (j : Json) : Except String (Atom Float) := do
+  return { src := ← natField j "src", sfac := ← natField j "sfac", pos := ← field j "pos" >>= v3F, part := ← intField j "part",
+           sof := ← floatField j "sof", u := ← field j "u" >>= floats, qpeak := ← boolField j "q", mol := ← intField j "mol",
+           an := ← natField j "an", isH := ← boolField j "h", symmgen := false }
+
+def needOf (j : Json) : Except String Need := do
+  match ← ints j with
+  | [n, h, k, l, g] => return ⟨n, h, k, l, g⟩
+  | _ => err "expected 5 ints"
+
+def sdmOf (atoms : List (Atom Float)) (j : Json) : Except String (SdmItem Float) := do
+  match ← arr j with
+  | [a1, a2, d, c] =>
+    let i ← nat a1
+    let k ← nat a2
+    match atoms[i]?, atoms[k]? with
+    | some x, some y => return { atom1 := x, atom2 := y, dist := ← float d, covalent := ← bool c }
+    | _, _ => err "sdm item: atom index out of range"
+  | _ => err "expected [a1, a2, dist, covalent]"
+
+def atomJson (a : Atom Float) : Json :=
+  Json.mkObj [("src", ofNat a.src), ("sfac", ofNat a.sfac), ("pos", ofFloats [a.pos.x, a.pos.y, a.pos.z]), ("part", ofInt a.part),
+              ("sof", ofFloat a.sof), ("u", ofFloats a.u), ("q", Json.bool a.qpeak), ("symmgen", Json.bool a.symmgen)]
+
+def needJson (e : Need) : Json := ofInts [e.n, e.h, e.k, e.l, e.group]
+
+instance : BEq Float := ⟨fun a b => a == b⟩
 
 def handle (j : Json) : Except String Json := do
   let op ← strField j "op"
-  err s!"C14: unknown op {op}"
+  match op with
+  | "grow" =>
+    let ker ← field j "kern" >>= kernelF
+    let ops ← (← arrField j "ops").mapM opOf
+    let atoms ← (← arrField j "atoms").mapM atomOf
+    let need ← (← arrField j "need").mapM needOf
+    let sdm ← (← arrField j "sdm").mapM (sdmOf atoms)
+    let withQ ← boolField j "with_q"
+    let res := packer ker ops atoms need withQ
+    let collected := collectNeeded ker ops sdm
+    let nOrig := (shownOriginals withQ atoms).length
+    let spec := match res with
+      | none => Json.mkObj []
+      | some r => Json.mkObj [("prefix", Json.bool (checkPrefix withQ atoms r)),
+                              ("images", Json.bool (checkImages ker ops need withQ atoms r)),
+                              ("no_coincide", Json.bool (checkNoCoincide ker nOrig r))]
+    return Json.mkObj [("packer", match res with | none => Json.null | some r => Json.arr (r.map atomJson).toArray),
+                       ("need", Json.arr (collected.map needJson).toArray),
+                       ("spec", spec)]
+  | _ => err s!"C14: unknown op {op}"
 
 end Shelx.Drv.C14
